@@ -1,5 +1,6 @@
 import ast
 import inspect
+import textwrap
 import logging
 from collections import OrderedDict
 from pathlib import PurePosixPath
@@ -89,7 +90,7 @@ def _introspect_class(
     fiis_ = gctx.cached_indirect_interactions.get(fun_path)
     if fiis_ is not None:
         return fiis_
-    src = getsource_class(c)
+    src = textwrap.dedent(getsource_class(c))
     # _logger.debug(f"Starting _introspect_class: {c}: src={src}")
     ast_src = ast.parse(src)
     ast_f: ast.ClassDef = ast_src.body[0]  # type: ignore
@@ -145,7 +146,7 @@ def _introspect_fun(
         fiis_ = gctx.cached_indirect_interactions.get(fun_path)
         if fiis_ is not None:
             return fiis_
-        src = inspect.getsource(f)
+        src = textwrap.dedent(inspect.getsource(f))
         # _logger.debug(f"Starting _introspect: {f}: src={src}")
         ast_src = ast.parse(src)
         ast_f = ast_src.body[0]  # type: ignore
